@@ -297,8 +297,22 @@ fn run_one(prog: &Value, out: &mut Out) {
             drop(repo);
             let d = tri!(rec, out, "init dest", new_repo(&prog["dest_cfg"]));
             if let Some(pre) = prog.get("dest_pre").filter(|p| p.is_array()) {
+                let mut made = Vec::new();
                 for (i, s) in pre.as_array().unwrap().iter().enumerate() {
-                    let _ = tri!(rec, out, "dest backup", backup(&d, s, 50_000 + i as i64));
+                    made.push(tri!(rec, out, "dest backup", backup(&d, s, 50_000 + i as i64)));
+                }
+                // a destination with a history of its own: some of its snapshots forgotten and pruned without
+                // repacking, so its index may still list trees whose children are gone
+                if let Some(fg) = prog.get("dest_forget").and_then(Value::as_array) {
+                    let ids: Vec<_> = fg.iter().filter_map(|i| made.get(i.as_u64()? as usize)).map(|s| s.id).collect();
+                    let po = crate::drivers::repo::prune_opts(&prog["dest_prune"]);
+                    tri!(rec, out, "dest forget/prune", scn::guard(|| {
+                        let r = scn::open(&d.h, &d.key)?;
+                        r.delete_snapshots(&ids)?;
+                        let plan = r.prune_plan(&po)?;
+                        r.prune(&po, plan)
+                    }));
+                    rec["dest_check_pre"] = json!(check(&d));
                 }
             }
             // destination already holding the tree (but not the data blob of the same id) or the other way round
